@@ -65,48 +65,34 @@ Theorem growth_irrelevant :
 Proof. exact Growth.growth_irrelevant. Qed.
 Print Assumptions growth_irrelevant.
 
-(* ------------------------------------------------------------------ records and tuples (Proofs_C14b.v)
-   pyok = Spec.pywf (distinct dict keys) && no record named by the empty string (Proofs_C14b.pyok_split);
-   everything else is covered: tuples of any arity, records with any field sets / orders / names, arbitrarily nested
-   and heterogeneous (unions), None anywhere. *)
-Theorem builder_roundtrip_struct_partial :
-  forall o vs, good_opts o -> forallb pyok vs = true ->
+(* ------------------------------------------------------------------ the FULL round trip (Proofs_C14b.v)
+   every well-formed value list (Spec.pywf: the keys of one dict are distinct): tuples of any arity, records with any
+   field sets / orders / names, arbitrarily nested and heterogeneous (unions), None anywhere.  (On the pinned tree an
+   unnamed record followed by a record named "" broke it; repaired in /repo by 75cafad, the model follows.) *)
+Theorem builder_roundtrip :
+  forall o vs, good_opts o -> forallb pywf vs = true ->
   exists b, run o ab_init (encode_all vs) = Ok b /\ observe b = Ok (unify vs).
-Proof. exact Proofs_C14b.builder_roundtrip_struct_partial. Qed.
-Print Assumptions builder_roundtrip_struct_partial.
+Proof. exact Proofs_C14b.builder_roundtrip. Qed.
+Print Assumptions builder_roundtrip.
 
-(* the same under the hypothesis of the full statement plus the one exclusion *)
-Theorem builder_roundtrip_wf_partial :
-  forall o vs, good_opts o -> forallb pywf vs = true -> forallb named_ok vs = true ->
-  exists b, run o ab_init (encode_all vs) = Ok b /\ observe b = Ok (unify vs).
-Proof. exact Proofs_C14b.builder_roundtrip_wf_partial. Qed.
-Print Assumptions builder_roundtrip_wf_partial.
+(* the session form, as the correspondence runs it *)
+Theorem from_iter_session_full :
+  forall o vs, good_opts o -> forallb pywf vs = true ->
+  exists c, fst (run_session o ab_init 0 (map SC (encode_all vs) ++ [SSnapshot]))
+            = [EvSnap (length (encode_all vs)) (zlen vs) (Ok c)] /\ to_list c = Ok (unify vs).
+Proof. exact Proofs_C14b.from_iter_session_full. Qed.
+Print Assumptions from_iter_session_full.
 
-(* stage 1: record/tuple-free values and tuples (any arities) with record/tuple-free slots *)
+(* stage corollaries: record/tuple-free values and tuples (any arities) with record/tuple-free slots *)
 Theorem builder_roundtrip_tuples_partial :
   forall o vs, good_opts o -> forallb tuple_flat vs = true ->
   exists b, run o ab_init (encode_all vs) = Ok b /\ observe b = Ok (unify vs).
 Proof. exact Proofs_C14b.builder_roundtrip_tuples_partial. Qed.
 Print Assumptions builder_roundtrip_tuples_partial.
 
-(* stage 2: record/tuple-free values and records (any field sets, orders, names but "") with record/tuple-free fields *)
+(* record/tuple-free values and records (any field sets, orders, names) with record/tuple-free fields *)
 Theorem builder_roundtrip_records_partial :
   forall o vs, good_opts o -> forallb record_flat vs = true ->
   exists b, run o ab_init (encode_all vs) = Ok b /\ observe b = Ok (unify vs).
 Proof. exact Proofs_C14b.builder_roundtrip_records_partial. Qed.
 Print Assumptions builder_roundtrip_records_partial.
-
-Theorem from_iter_session_struct :
-  forall o vs, good_opts o -> forallb pyok vs = true ->
-  exists c, fst (run_session o ab_init 0 (map SC (encode_all vs) ++ [SSnapshot]))
-            = [EvSnap (length (encode_all vs)) (zlen vs) (Ok c)] /\ to_list c = Ok (unify vs).
-Proof. exact Proofs_C14b.from_iter_session_struct. Qed.
-Print Assumptions from_iter_session_struct.
-
-(* the exclusion is necessary: with pywf alone the statement is false (an unnamed record followed by a record named
-   "" are merged by RecordBuilder::beginrecord; witness Proofs_C14b.empty_name_refuted) *)
-Theorem builder_roundtrip_full_refuted :
-  ~ (forall o vs, good_opts o -> forallb pywf vs = true ->
-       exists b, run o ab_init (encode_all vs) = Ok b /\ observe b = Ok (unify vs)).
-Proof. exact Proofs_C14b.builder_roundtrip_full_refuted. Qed.
-Print Assumptions builder_roundtrip_full_refuted.
